@@ -6,7 +6,7 @@ import StreamzVerif.Model.Edit
   {"op":"emit","node":i,"val":v,"md":[{"tag":t,"ref":r|null},...]}      -> {"log":[...],"toks":[...],"err":null|"raised:X"}
   {"op":"flush","node":i}                                               -> same
   {"op":"sinkdone","tok":k} | {"op":"sinkfail","tok":k}                 -> {"log":[...]}
-  {"op":"connect"|"disconnect","up":u,"down":d} | {"op":"destroy","node":d} | {"op":"drop","node":i}
+  {"op":"connect"|"disconnect","up":u,"down":d} | {"op":"destroy","node":d[,"streams":[u,..]]} | {"op":"drop","node":i}
                                                                          -> {"log":[...],"err":...}
   {"op":"counts","refs":[r,...]}                                        -> {"counts":[...]}
   {"op":"links"}                                                        -> {"downs":[[..],..],"ups":[[..],..],"alive":[..]}
@@ -229,7 +229,10 @@ def step (d : DSt) (j : Json) : DSt × Json :=
   | some "destroy" =>
     match getNat j "node" with
     | some i =>
-      let r := destroy d.G i d.S
+      -- {"op":"destroy","node":d,"streams":[u,...]} = d.destroy(streams=[...]); without "streams": all upstreams
+      let r := match getNatList j "streams" with
+        | some sel => destroySel d.G sel i d.S
+        | none => destroy d.G i d.S
       -- Sink.destroy: super().destroy(); _global_sinks.remove(self)   (KeyError when destroyed twice)
       let err := if r.err.isNone && isSink (d.G i) && !d.live.sinkReg i then some Err.keyError else r.err
       let live := if r.err.isNone && isSink (d.G i) then { d.live with sinkReg := fun q => if q = i then false else d.live.sinkReg q } else d.live
